@@ -683,7 +683,7 @@ def unpackNamesE (ev : Ev) (C : Ctx) (bad : Err) (names : List Expr) : R (VL × 
     if (ns.filterMap strOf).length != ns.length then .error bad else pure (ns, ns.filterMap strOf)
 
 def unpackKE (C : Ctx) (nm : VL × List Name) (xs : VL) (e : Option Err) : R Obj :=
-  match (if xs.length < nm.2.length + 1 then e else none) with
+  match (if nm.2.length = 0 || xs.length < nm.2.length + 1 then e else none) with
   | some er => .error er
   | none =>
     if nm.2.length = 0 then pure (.ctx ({ vars := Eval.bindNamed [] (Eval.bindPos 1 xs) } :: C))
@@ -749,14 +749,10 @@ theorem matchT_emb (d : Option Err) {xL : RL ObjL} {x : R Obj} (hx : Emb emb xL 
 
 theorem unpackK_emb (C : Ctx) (nm : VL × List Name) (xs : VL) (e : Option Err) :
     Emb emb
-      (match (if xs.length < nm.2.length + 1 then embT e else none) with
+      (match (if nm.2.length = 0 || xs.length < nm.2.length + 1 then embT e else none) with
         | some er => (.error er : RL ObjL)
         | none =>
-          if nm.2.length = 0 then
-            match embT e with
-            | some er =>
-              if isLim er then .error er else pure (.ctx ({ vars := Eval.bindNamed [] (Eval.bindPos 1 xs) } :: C))
-            | none => pure (.ctx ({ vars := Eval.bindNamed [] (Eval.bindPos 1 xs) } :: C))
+          if nm.2.length = 0 then pure (.ctx ({ vars := Eval.bindNamed [] (Eval.bindPos 1 xs) } :: C))
           else if (xs.take (nm.2.length + 1)).length != nm.2.length then .error (.base .value)
           else pure (.ctx ({ vars := Eval.bindNamed [] (nm.2.zip xs) } :: C)))
       (unpackKE C nm xs e) := by
@@ -765,7 +761,7 @@ theorem unpackK_emb (C : Ctx) (nm : VL × List Name) (xs : VL) (e : Option Err) 
   refine matchT_emb _ ?_
   by_cases hn : nm.2.length = 0
   · simp only [if_pos hn]
-    cases e <;> rfl
+    rfl
   · simp only [if_neg hn]
     by_cases hl : ((xs.take (nm.2.length + 1)).length != nm.2.length) = true
     · simp only [if_pos hl]; rfl
